@@ -199,14 +199,17 @@ RefAll(P, dir, set) == [k \in 1..Len(set) |-> RefOne(P, dir, set[k])]
 (* in order, the parameters in force are cached and re-evaluated when the  *)
 (* epoch differs from the previous tuple's.                                *)
 (***************************************************************************)
-VARIABLES core, data, phase, i, outF, outI, prevT, cur
-vars == <<core, data, phase, i, outF, outI, prevT, cur>>
+\* res is the resolved record of core: a function of core, kept in the state so that
+\* it is assembled once per definition
+VARIABLES core, res, data, phase, i, outF, outI, prevT, cur
+vars == <<core, res, data, phase, i, outF, outI, prevT, cur>>
 
-P0 == Resolved(core)
+P0 == res
 Base(P) == [T |-> P.T, R |-> P.R, S |-> P.S]
 Changed(t, prev) == t = NaN \/ prev = NaN \/ t # prev
 
 Init == /\ core \in CoresC
+        /\ res = Resolved(core)
         /\ data = <<>> /\ phase = "build" /\ i = 0
         /\ outF = <<>> /\ outI = <<>> /\ prevT = NaN
         /\ cur = [T |-> Zero3, R |-> Zero3, S |-> 0]
@@ -219,11 +222,11 @@ AddTuple == /\ phase = "build" /\ Len(data) < MaxTuples
             /\ \E t \in EpochsC :
                   /\ P0.dynamic \/ t = CHOOSE e \in EpochsC : e # NaN
                   /\ data' = Append(data, <<PosC[Len(data) + 1][1], PosC[Len(data) + 1][2], PosC[Len(data) + 1][3], t>>)
-            /\ UNCHANGED <<core, phase, i, outF, outI, prevT, cur>>
+            /\ UNCHANGED <<core, res, phase, i, outF, outI, prevT, cur>>
 
 Start == /\ phase = "build" /\ Len(data) > 0
          /\ phase' = "fwd" /\ i' = 1 /\ prevT' = NaN /\ cur' = Base(P0)
-         /\ UNCHANGED <<core, data, outF, outI>>
+         /\ UNCHANGED <<core, res, data, outF, outI>>
 
 \* the input of the inverse pass: the forward result where that is exact
 InvInput == IF Pure(P0) THEN outF ELSE data
@@ -241,16 +244,16 @@ StepWith(dir, input) ==
         /\ IF dir = "F" THEN outF' = Append(outF, ApplyOne(nxt, P0, dir, tup)) /\ UNCHANGED outI
                         ELSE outI' = Append(outI, ApplyOne(nxt, P0, dir, tup)) /\ UNCHANGED outF
         /\ i' = i + 1
-        /\ UNCHANGED <<core, data, phase>>
+        /\ UNCHANGED <<core, res, data, phase>>
 
 StepFwd == phase = "fwd" /\ i <= Len(data) /\ StepWith("F", data)
 EndFwd  == /\ phase = "fwd" /\ i > Len(data)
            /\ phase' = "inv" /\ i' = 1 /\ prevT' = NaN /\ cur' = Base(P0)
-           /\ UNCHANGED <<core, data, outF, outI>>
+           /\ UNCHANGED <<core, res, data, outF, outI>>
 StepInv == phase = "inv" /\ i <= Len(data) /\ StepWith("I", InvInput)
 EndInv  == /\ phase = "inv" /\ i > Len(data)
            /\ phase' = "done"
-           /\ UNCHANGED <<core, data, i, outF, outI, prevT, cur>>
+           /\ UNCHANGED <<core, res, data, i, outF, outI, prevT, cur>>
 
 Next == AddTuple \/ Start \/ StepFwd \/ EndFwd \/ StepInv \/ EndInv
 Spec == Init /\ [][Next]_vars
@@ -305,14 +308,14 @@ TObsInv == (phase = "done" /\ P0.fixed) =>
             ELSE [a EXCEPT !.t = 0] = [b EXCEPT !.t = 0]
 
 \* the static definition carrying the parameters of epoch e
-Frozen(c, e) ==
-    LET par == At(Resolved(c), e) IN
+Frozen(c, P, e) ==
+    LET par == At(P, e) IN
     [c EXCEPT !.T = par.T, !.R = par.R, !.S = par.S, !.DT = Zero3, !.DR = Zero3, !.DS = 0,
               !.tep = NaN, !.tobs = NaN]
 RealEpochs == {e \in EpochsC : e # NaN}
 FrozenInv == (AtStart /\ P0.ok) =>
     \A e \in RealEpochs :
-        LET F == Resolved(Frozen(core, e)) IN
+        LET F == Resolved(Frozen(core, P0, e)) IN
         /\ F.ok /\ ~F.dynamic
         /\ Base(F) = At(P0, e)
         /\ \A k \in 1..Len(PosC) : \A d \in {"F", "I"} :
@@ -370,7 +373,7 @@ EmitDef == AtStart =>
         texts   |-> SpellingTexts(core),
         untobs  |-> IF P0.ok /\ P0.fixed THEN DefText(NoTobs(core), CanonSp) ELSE "",
         frozen  |-> IF P0.ok /\ P0.dynamic
-                    THEN {<<e, DefText(Frozen(core, e), CanonSp)>> : e \in RealEpochs} ELSE {},
+                    THEN {<<e, DefText(Frozen(core, P0, e), CanonSp)>> : e \in RealEpochs} ELSE {},
         flip    |-> IF P0.ok /\ P0.rotated /\ ~core.exact THEN DefText(Flip(core), CanonSp) ELSE "",
         transp  |-> IF P0.ok /\ P0.rotated /\ core.exact /\ Bare(core)
                     THEN DefText([core EXCEPT !.conv = Other(core.conv)], CanonSp) ELSE "",
